@@ -59,7 +59,7 @@ class C14Spec(explore.Spec):
     def alphabet(self, cfg):
         v = cfg["version"]
         evs = alpha.events(v, NAMES)
-        evs += [("tick",), ("set", 1, 0, 2, "0"), ("fw", 1, 1, 1, "F1")]
+        evs += [("tick",), ("tickfail", "fsync"), ("tickfail", "rename"), ("set", 1, 0, 2, "0"), ("fw", 1, 1, 1, "F1")]
         if self.tier == "thorough":
             evs += alpha.events(v, ["PB", "SA0z", "CA1"])
         return evs
